@@ -33,6 +33,10 @@ def worker(job):
             problems.append(("rejected", "the constructor rejected the configuration: %s" % model.exc, None))
             return dict(cfg=cfg, problems=problems)
         symbolise(w, model)
+        if spec.get("_roundtrip"):
+            # "for every parameter value": a trained / jitted / loaded model has been through pytree flatten / unflatten,
+            # which re-creates every dict field with SORTED keys
+            model = tree_map(lambda a: a, model)
         N = spatial_for(spec)
         if spec.get("_orient"):
             N = tuple(N[i] for i in spec["_orient"])  # another member of the orbit of a non-cubic box
@@ -273,6 +277,14 @@ def run(ctx):
         if cls == "UNet":
             sm.update(num_downsamples=1, num_conv=1)
         specs.append(sm)
+    # models as they are after a training step / filter_jit / load (pytree round trip), signatures listed in a non-sorted
+    # order with equal channel counts
+    SR = ([((1, 0), 1), ((0, 0), 1)], [((1, 0), 1), ((0, 0), 1)])
+    for cls in ("ConvBlock", "ResNet") + (("UNet", "DilResNet") if th else ()):
+        sr = dict(base, cls=cls, input=SR[0], output=SR[1], use_group_norm=(cls != "DilResNet"), activation="relu", use_bias="auto", _roundtrip=True)
+        if cls == "UNet":
+            sr.update(num_downsamples=1, num_conv=1)
+        specs.append(sr)
     if th:
         # a non-cubic box and its axis-permuted copies form one orbit: the generators are checked on every member
         extra = []
